@@ -55,6 +55,7 @@ class Extractor:
         self.cls = next(n for n in self.tree.body if isinstance(n, ast.ClassDef) and n.name == 'SVG')
         self.methods = {n.name: n for n in self.cls.body if isinstance(n, ast.FunctionDef)}
         self.inlining = []
+        self.in_loop = 0
 
     # ---- classification of one simple statement / expression
     def kinds_of(self, node, cache_vars):
@@ -135,6 +136,7 @@ class Extractor:
         tail = lambda: self.block(rest, k, cache_vars)
         if isinstance(s, ast.Expr) and isinstance(s.value, ast.Constant): return tail()
         if isinstance(s, ast.Return):
+            if self.in_loop: raise Abort(f"line {s.lineno}: return inside a loop")
             v = s.value
             r = 'RetNone' if v is None else ('RetSelf' if isinstance(v, ast.Name) and v.id == 'self' else
                  ('RetClone' if isinstance(v, ast.Name) and v.id == 'svg' else 'RetOther'))
@@ -142,6 +144,12 @@ class Extractor:
             if v is not None: inner = self.emit_kinds(self.kinds_of(ast.Expr(value=v, lineno=s.lineno), cache_vars), s.lineno, inner, False)
             return inner
         if isinstance(s, ast.Raise): return ('Done', 'RetRaise')
+        if isinstance(s, ast.Break):
+            if not self.in_loop: raise Abort(f"line {s.lineno}: break outside a kept loop")
+            return ('Done', 'RetBreak')
+        if isinstance(s, ast.Continue):
+            if not self.in_loop: raise Abort(f"line {s.lineno}: continue outside a kept loop")
+            return ('Done', 'RetContinue')
         if isinstance(s, (ast.Assign, ast.AugAssign, ast.AnnAssign, ast.Expr, ast.Delete, ast.Assert, ast.Pass)):
             if isinstance(s, ast.Assign) and len(s.targets) == 1 and isinstance(s.targets[0], ast.Name) and isinstance(s.value, (ast.List, ast.Dict, ast.Set, ast.ListComp, ast.Call)):
                 if isinstance(s.value, (ast.List, ast.Dict, ast.Set, ast.ListComp)) or (isinstance(s.value.func, ast.Name) and s.value.func.id in ('set', 'list', 'dict', 'deque', 'defaultdict')):
@@ -183,7 +191,19 @@ class Extractor:
                     else: body_kinds.update(self.kinds_of(st, cv))
             collect(s.body)
             if body_kinds & {'Flush', 'Invalidate', 'Clone'} or any(x.startswith('Call:') for x in body_kinds):
-                raise Abort(f"line {s.lineno}: loop body changes the cache bookkeeping: {sorted(body_kinds)}")
+                # a loop whose body changes the cache bookkeeping: keep it as a loop.  Only `while` loops
+                # without else-clause; the body is translated with continue/break leaves.
+                if not isinstance(s, ast.While) or s.orelse:
+                    raise Abort(f"line {s.lineno}: loop body changes the cache bookkeeping: {sorted(body_kinds)}")
+                self.in_loop += 1
+                body = self.block(list(s.body), ('Done', 'RetContinue'), cache_vars)
+                self.in_loop -= 1
+                test_is_true = isinstance(s.test, ast.Constant) and s.test.value is True
+                if not test_is_true:
+                    tk = self.kinds_of(ast.Expr(value=s.test, lineno=s.lineno), cache_vars)
+                    uses_cache = any(isinstance(n, ast.Name) and n.id in cache_vars for n in ast.walk(s.test))
+                    body = self.emit_kinds(tk, s.lineno, ('IfCache' if uses_cache else 'IfTree', s.lineno, body, ('Done', 'RetBreak')), False)
+                return ('While', s.lineno, body, tail())
             allk = header | body_kinds
             return self.emit_kinds(allk, s.lineno, tail(), 'Populate' in header)
         if isinstance(s, ast.Try):
@@ -197,11 +217,11 @@ class Extractor:
         if name in self.inlining: raise Abort(f"recursive call cycle through {name}")
         self.inlining.append(name)
         body = self.inplace_body(self.methods[name])
-        saved = self.local_containers
-        self.local_containers = set()
+        saved, saved_loop = self.local_containers, self.in_loop
+        self.local_containers, self.in_loop = set(), 0
         # returns inside the callee continue with k
         sk = self.block(body, ('Done', 'RetFallthrough'), set())
-        self.local_containers = saved
+        self.local_containers, self.in_loop = saved, saved_loop
         self.inlining.pop()
         def splice(t):
             if t[0] == 'Done': return k if t[1] in ('RetSelf', 'RetFallthrough', 'RetNone', 'RetOther') else t
@@ -209,6 +229,7 @@ class Extractor:
             if t[0] in ('Edit', 'Mut'): return (t[0], t[1], splice(t[2]))
             if t[0] in ('IfTree', 'IfCache'): return (t[0], t[1], splice(t[2]), splice(t[3]))
             if t[0] == 'IfHasCache': return (t[0], splice(t[1]), splice(t[2]))
+            if t[0] == 'While': return (t[0], t[1], t[2], splice(t[3]))     # no return leaves inside a loop body
             raise Abort("splice")
         return splice(sk)
 
@@ -251,6 +272,7 @@ def coq_sk(t):
     if t[0] in ('Edit', 'Mut'): return f"({t[0]} {t[1]} {coq_sk(t[2])})"
     if t[0] in ('IfTree', 'IfCache'): return f"({t[0]} {t[1]} {coq_sk(t[2])} {coq_sk(t[3])})"
     if t[0] == 'IfHasCache': return f"(IfHasCache {coq_sk(t[1])} {coq_sk(t[2])})"
+    if t[0] == 'While': return f"(While {t[1]} {coq_sk(t[2])} {coq_sk(t[3])})"
     raise Abort(f"coq_sk {t}")
 
 def size(t):
